@@ -13,6 +13,14 @@ let () =
       let ops = (match tl with [] -> [] | o :: _ -> L.map (parse_hop b) (split_on ';' o)) in
       let res = Hist.hrun st0 ops in
       let prev = ref st0 in
-      let items = L.map (fun (o, st) -> let s = show_out !prev st o ^ "/" ^ show_state st in prev := st; s) res in
+      (* optional 4th part `idx=<id>:<slot>.<stamp>,...`: the xml:id index the parser built for the start document;
+         then every step also shows what xml_id_node answers for every id *)
+      let idx = (match L.filter (fun p -> String.length p >= 4 && String.sub p 0 4 = "idx=") tl with
+                 | [] -> None
+                 | p :: _ -> Some (parse_idx p)) in
+      let ids st = (match idx with
+                    | None -> ""
+                    | Some index -> "#" ^ String.concat "," (L.map show_handle_opt (Hist.xml_id_answers st index))) in
+      let items = L.map (fun (o, st) -> let s = show_out !prev st o ^ "/" ^ show_state st ^ ids st in prev := st; s) res in
       print_endline (case ^ " " ^ String.concat ";" items)
     | _ -> failwith "hist: bad case line")
